@@ -156,6 +156,20 @@ def scan(header):
     return errs
 
 
+def observer_indices_out_of_bounds(header):
+    """(array, index, declared size) of the first use of an observer array beyond its declaration, or None"""
+    sizes = {m.group(1): int(m.group(2)) for m in re.finditer(r"PropertyObserver (observed\w+_)\[(\d+)\];", header)}
+    for m in re.finditer(r"auto &observed = (observed\w+_);(.*?)\n    }\n", header, re.S):
+        name, body = m.group(1), m.group(2)
+        for ix in re.findall(r"\bobserved\[(\d+)\]", body):
+            if name not in sizes or int(ix) >= sizes[name]:
+                return (name, int(ix), sizes.get(name, 0))
+    for m in re.finditer(r"\b(observed\w+_)\[(\d+)\]\.", header):
+        if m.group(1) not in sizes or int(m.group(2)) >= sizes[m.group(1)]:
+            return (m.group(1), int(m.group(2)), sizes.get(m.group(1), 0))
+    return None
+
+
 def run(ctx):
     ctx.proof_leg(TARGETS, PINS, k_targets=K_TARGETS)
     vh = ctx.need_harness()
@@ -281,6 +295,12 @@ def run(ctx):
         bs = [("t", "i", "a.i"), ("tI", "i", "a.i + 1")] if any(o == "tI" for o, _, _ in hs) else []
         docs.append((cxx.document(bs, hs, ex2), [("handler", h, src, None) for _, h, src in hs], [("root", "VObj")] + cxx.OBJECT_DECLS + ex2))
         ctx.dist("colliding-callback-names")
+    # observer arrays: several properties read through run-time chosen objects in ONE block, some of them announced by the same signal (m1 / m2 by multiChanged), in every order
+    sel = lambda c, x, y: "%s.b ? %s : %s" % (c, x, y)
+    for k, reads in enumerate((["p.m1", "p.m2", "q.i"], ["q.i", "p.m1", "p.m2"], ["p.m1", "q.i", "p.m2"], ["p.m1", "p.m2", "p.m1", "q.m2", "q.i"], ["p.i", "p.i", "q.i"], ["p.m1", "p.m2", "q.m1", "q.m2", "p.i", "q.i"])):
+        osrc = "{ let p = %s; let q = %s; return %s }" % (sel("a", "a", "b"), sel("b", "b", "a"), " + ".join(reads))
+        docs.append((cxx.document([("tgt", "i", osrc)]), [("binding", "i", osrc, "int")], [("root", "VObj")] + cxx.OBJECT_DECLS))
+        ctx.dist("observer-array-shapes")
     # console.* takes operands of any type: whatever is accepted has to be something C++ can send to the stream (an empty list literal has no type: F27, repaired)
     for k, arg in enumerate(["[]", "null", "[], null", "[1, 2]", "a", "a.names", "VObj.ModeA", "\"s\"", "1.5", "a.next", "[a.s, \"x\"]", "a.nums", "true ? [] : []", "[[]]"]):
         hsrc = "console.%s(%s)" % (["log", "warn", "info", "debug", "error"][k % 5], arg)
@@ -309,6 +329,10 @@ def run(ctx):
     seen_known = {}
     for (k, d, doc, chunk, header), (rc, err) in zip(jobs, results):
         rep = {"qml": doc, "impl_output": header}
+        oob = observer_indices_out_of_bounds(header)
+        if oob:
+            ctx.violation("the support header uses %s[%d], the array is declared with %d elements" % oob, dict(rep, theorem_or_correspondence="observer arrays hold every index used / header scan"))
+            continue
         nbind.append(len(re.findall(r"void update\w+\(\)", header)))
         if rc != 0:
             first = next((l for l in err.split("\n") if "error" in l), err[:300])
